@@ -171,7 +171,8 @@ StepRules(st, self, types, cache) ==
   \cup (IF (has /\ ~amInit /\ pre.status = "Finalizing" /\ pre.reqFin /\ st.panic = ""
              /\ (post.status \in {"Completing","Completed"} \/ Has(sends, LAMBDA n : n.msg.kind = "Complete" /\ ~n.msg.paused /\ n.msg.accepted)
                   \/ (reply.kind = "Complete" /\ ~reply.paused /\ reply.accepted)))
-           => ((k = "UpdateValidation" /\ script.accepted /\ ~script.reqFin) \/ k = "Resume")
+           => ((k = "UpdateValidation" /\ script.accepted /\ ~script.reqFin) \/ k = "Resume"
+               \/ (isReqStim /\ m.kind = "Restart" /\ valOK /\ ~script.reqFin))        \* the re-validation of a restart request is a validation decision too
         THEN {} ELSE {"C03.finalizingOnlyReleased"})
   \cup (IF (k = "OnChannelCompleted" /\ has /\ ~amInit /\ s.args.err = "" /\ s.sendFail = << >> /\ pre.status \in {"Ongoing","Queued"})
            => (IF pre.reqFin THEN post.status = "Finalizing" /\ Has(sends, LAMBDA n : n.msg.kind = "Complete" /\ n.msg.paused)
